@@ -15,7 +15,9 @@ NumRoundTrip == T.kind = "num" /\ NoPanic => T.ok /\ T.back_equal /\ T.eq_canon
 \* what survives rendering in an environment format: no fractions, seconds only if the format shows them
 Trunc(tf, d) == [d EXCEPT !.s = IF tf \in {"tt:mm", "h:mm aa"} THEN 0 ELSE d.s, !.us = 0]
 Expected == IF T.fmt.iso THEN T.dt ELSE Trunc(T.fmt.tf, T.dt)
-DTRoundTrip == T.kind = "dt" /\ NoPanic => T.ok /\ T.parsed = Expected
+\* ... whether it is read as an expression value (parsed) or the way a contact field / has_date reads it (parsed_stored: a
+\* text WITHOUT a time gets the clock's; these texts all have one)
+DTRoundTrip == T.kind = "dt" /\ NoPanic => T.ok /\ T.parsed = Expected /\ T.parsed_stored = Expected
 \* '=' between two date-times holds exactly when their canonical renderings coincide
 DTEqCanon == T.kind = "dt" /\ NoPanic /\ T.ok => T.eq_canon
 \* times of day: the canonical text shows microseconds (anything finer is cut, not rounded), the environment formats none
